@@ -76,9 +76,8 @@ known("C03", "escape-persists/history:escape",
 known("C03", "tag-newline/history:rebreak",
       "a newline next to a tag/comment is significant by design, including one that wrapping itself produced at a narrow width: formatting at width 25 then 0 keeps the tag at a line end. Inherent in the declared exception.")
 known("C03", "tag-newline/history:content", "same mechanism (line structure around the tag differs)")
-SR = ("headings and table cells are not re-flowed, so runs of spaces inside them survive: '## a   b' and '| b   c |' are output as is. Not repaired: would change heading/table rendering broadly.")
-for b in ("atx", "atx-closing", "setext1", "setext2", "table", "table-center", "heading-list"):
-    known("C03", f"block[{b}]/relayout:space-runs", SR if b == "atx" else "same: " + b)
+known("C03", "heading-or-table-row/relayout:space-runs",
+      "headings and table cells are not re-flowed, so runs of spaces inside them survive: '## a   b' and '| b   c |' are output as is (in any container). Not repaired: would change heading/table rendering broadly.")
 
 # ---------------------------------------------------------------- known: C06
 known("C06", "separated-tags/atomic:words",
